@@ -332,7 +332,8 @@ def run(tier, seed):
              'schema = real export, model reading = Python reading (also on mutated input), model layout = instrumented parse; constructs '
              'without emitters export as failures on both sides. distinct = (oracle signature, outcome) + correspondence shapes',
         fragment='ksy_describes_flat_struct: every Struct of named flat members, every input; ksy_describes_nested_struct: Structs nested in '
-                 'Structs to depth 20 (helper types type_<k>, fresh names, lookup never shadowed)',
+                 'Structs to depth 20 (helper types type_<k>, fresh names, lookup never shadowed); ksy_describes_dependent_struct: members sized by '
+                 'earlier integer fields (Bytes(this.n), Array(this.n, x))',
         partial=['strings, enums, conditionals, prefixed and repeated-until fields are inside the model (correspondence) but outside the theorem; '
                  'bit structs, pointers (instances), flag sets and PrefixedArray are checked by the layout oracle only',
                  'the reading of the dialect (ksy_interp / tools/ksy.py) is the reference: the Kaitai compiler is not installed'])
